@@ -1499,7 +1499,7 @@ func (v *VMValue) ComputedExecute(ctx *Context, detail *BufferSpan) *VMValue {
 		opCount := vm.NumOpCount
 		if err := vm.Parse(cd.Expr); err == nil {
 			vm.NumOpCount = opCount
-			_ = vm.RunAfterParsed()
+			vm.evaluate()
 		}
 		cd.code = vm.code
 		cd.codeIndex = vm.codeIndex
@@ -1591,7 +1591,7 @@ func (v *VMValue) FuncInvokeRaw(ctx *Context, params []*VMValue, useUpCtxLocal b
 		opCount := vm.NumOpCount
 		if err := vm.Parse(cd.Expr); err == nil {
 			vm.NumOpCount = opCount
-			_ = vm.RunAfterParsed()
+			vm.evaluate()
 		}
 		cd.code = vm.code
 		cd.codeIndex = vm.codeIndex
